@@ -105,9 +105,9 @@ pub fn gen(tier: Tier, rng: &mut Rng64, out: &mut Out) {
     let all3: Vec<String> = (0..256u64).map(|t| fmt_bdd(&bdd_of_tt(3, &tt_from_index(3, t)))).collect();
     let fs3 = flips(3);
     if thorough {
-        // every pair: 6 sampled flip configurations with a random table
+        // every pair: 10 sampled flip configurations with a random table
         for a in 0..256usize { for b in 0..256usize {
-            for _ in 0..6 {
+            for _ in 0..10 {
                 let c = rng.below(16) as u32;
                 bin(some_table2(rng, c), c, &all3[a], &all3[b], *rng.pick(&fs3), *rng.pick(&fs3), *rng.pick(&fs3), out);
             }
